@@ -194,6 +194,15 @@ def closed_all(lin, p0, data, boots, multinom, log=False, nested=None, adjusts=N
     return H, J, cU, q
 
 
+def _ncond(M):
+    """condition number after symmetric diagonal scaling (invariant under a change of parameter units): what governs the
+    relative error of uncertainties and quadratic forms built from the inverse"""
+    d = np.sqrt(np.abs(np.diag(M)))
+    if not np.all(d > 0):
+        return float('inf')
+    return float(np.linalg.cond(M / np.outer(d, d)))
+
+
 def _relerr(x, y):
     x = np.asarray(x, dtype=float)
     y = np.asarray(y, dtype=float)
@@ -234,13 +243,13 @@ def closed_form(fn, k, seed, ns, p0, multinom, eps, dseed, nboot, log=False, nes
     shape = [n + 1 for n in ns]
     model = lin.M(p0)
     rs = np.random.RandomState(dseed)
-    data = dadi.Spectrum(model * (1 + 0.03 * rs.standard_normal(model.shape)).clip(0.3, 3) * 1.0)
+    data = dadi.Spectrum(model * (1 + 0.03 * rs.standard_normal(model.shape)).clip(0.3, 3) * (3.0 if multinom else 1.0))
     if dmask:
         # data with masked entries beyond the corners (e.g. untrusted singletons): every sum runs over the jointly unmasked entries
         flat = [i for i in range(1, data.size - 1)]
         for i in [flat[(7 * dseed + 3 * j) % len(flat)] for j in range(dmask)]:
             data.mask.flat[i] = True
-    boots = [dadi.Spectrum(model * (1 + 0.25 * np.random.RandomState(dseed * 100 + b).standard_normal(model.shape)).clip(0.2, 4))
+    boots = [dadi.Spectrum(model * (1 + 0.25 * np.random.RandomState(dseed * 100 + b).standard_normal(model.shape)).clip(0.2, 4) * (3.0 if multinom else 1.0))
              for b in range(nboot)]
     if perm:
         boots_call = [boots[i] for i in perm]
@@ -281,8 +290,10 @@ def closed_form(fn, k, seed, ns, p0, multinom, eps, dseed, nboot, log=False, nes
                     'now': np.asarray(pc).tolist(), 'container': pcont}
     H, J, cU, q = closed_all(lin, p0, data, boots if fn != 'FIM' else [], multinom, log, nested if fn in ('LRT', 'Wald', 'score') else None, adjusts)
     conds = float(np.linalg.cond(H))
+    condn = _ncond(H)
     if fn != 'FIM':
         conds += float(np.linalg.cond(J))
+        condn += _ncond(J)
     if fn == 'FIM':
         Rc = np.concatenate([np.sqrt(np.diag(np.linalg.inv(H))), np.ravel(H)])
     elif fn == 'GIM':
@@ -308,17 +319,17 @@ def closed_form(fn, k, seed, ns, p0, multinom, eps, dseed, nboot, log=False, nes
     central = all((v != 0 and not (v * 2 * eps < 1e-6)) for v in qdiff)
     if conds > 1e6 or not np.all(np.isfinite(Rc)):
         return {'ok': True, 'skipped': 'ill-conditioned closed form (cond %.3g)' % conds, 'what': 'closed form ' + fn}
-    if conds * (10 * eps ** 2 if central else eps) >= 0.5:
+    if condn * (10 * eps ** 2 if central else eps) >= 0.5:
         # the finite-difference result is in its pre-asymptotic regime (conditioning x truncation error >= 1/2): neither
         # the O(eps^p) statement nor any a-posteriori bound says anything here
-        return {'ok': True, 'skipped': 'pre-asymptotic (cond %.3g x truncation %.3g)' % (conds, (10 * eps ** 2 if central else eps)),
+        return {'ok': True, 'skipped': 'pre-asymptotic (scaled cond %.3g x truncation %.3g)' % (condn, (10 * eps ** 2 if central else eps)),
                 'what': 'closed form ' + fn}
     if R1.shape != Rc.shape:
         return {'ok': False, 'what': 'closed form ' + fn, 'shape': [list(R1.shape), list(Rc.shape)]}
     ok, out = _gate(R1, R2, Rc, eps, conds, central, R4)
     # amplification of the stencil's relative truncation error by the conditioning of H and J: the a-posteriori
     # bound and the order test are asymptotic statements, only meaningful while amp << 1
-    amp = conds * (10 * eps ** 2 if central else eps)
+    amp = condn * (10 * eps ** 2 if central else eps)
     out['amp'] = amp
     if out.get('order_fail') and amp >= 0.02:
         out.pop('order_fail')
